@@ -31,6 +31,13 @@ CHECKS.append(
      "technique": "fuzzing: Hypothesis-generated and structure-aware mutated inputs (quick) plus coverage-guided atheris/libFuzzer campaign (thorough), oracle inside the target: exception allow-list, deterministic linear work bound, cursor monotonicity",
      "text": "Random bytes, every prefix of valid messages, bit flips, every length field (message/AVP/nested, from the reference parser's span map) x 9 boundary values, and per-type malformed payloads of every length 0..20 bare, under untyped commands, nested, and under every typed command class that declares such an AVP. Each input goes through Message.from_bytes (typed and plain) and Avp.from_bytes, then every reachable AVP's value getter and str(); only packer.Error / AvpDecodeError may be raised, work counters stay under a linear bound (non-termination becomes a deterministic verdict), the unpacker cursor advances and never passes the buffer. Thorough adds two atheris campaigns (empty and seeded corpus) with the same oracle in the target.",
      "note": "Trusted: the allow-list reading of 'library decode errors' (packer.Error subclasses, AvpDecodeError); harness-installed counting wrappers; nesting walked to depth 16."})
+ENGINES.append({"name": "E3-simkernel", "path": "dv/simkernel.py", "serves_properties": ["C05", "C06", "C07", "C08", "C09", "C10", "C11", "C12", "C13", "C14", "C15", "C16", "C17", "C18", "C19"],
+                "kind_free_text": "deterministic simulation: the real diameter.node code on baton-passing simulated threads, virtual clock, virtual non-blocking sockets/pipes, loop-iteration progress guard (sys.monitoring)"})
+CHECKS.append(
+    {"id": "C05", "engine": "E3-simkernel", "category": "exploration", "design_ref": "DESIGN.md section 4 C05",
+     "technique": "property-based testing over streams x read boundaries with exhaustive 1-/2-cut enumeration on short streams; the real reader thread runs in a deterministic simulation; oracle = sent-vs-delivered sequence and a deterministic progress measure",
+     "text": "A real PeerConnection is fed streams of 1..6 messages in every 1-cut and (strided in quick, complete in thorough) 2-cut chunking of short streams, random k-cuts, byte-at-a-time and 2048-byte reads of longer ones; undecodable frames and frames with corrupted length fields (0, 1..19, shorter, longer) are inserted at every position. Valid frames must be delivered exactly once in order; corrupted lengths must leave the reader waiting for input or the connection closed - a spinning reader is detected deterministically by a loop-iteration budget, a dead reader by the kernel.",
+     "note": "Trusted: dv/simkernel.py (queue/thread/time shims), the frames built by dv/refcodec.py. The connection is put in READY state directly."})
 
 _TODO = "check not built yet in this session (planned, see DESIGN.md); not claimed until its machinery is committed"
 NOT_APPLICABLE = [{"property_id": f"C{n:02d}", "reason": _TODO} for n in range(2, 21) if f"C{n:02d}" not in {c["id"] for c in CHECKS}]
